@@ -741,7 +741,7 @@ func (p *Parser) parseCallExpressionRest(expr Expression) Expression {
 		}
 
 		expr = p.parseMemberExpressionRest(expr)
-		if p.token() == SK_OpenParen {
+		if p.token() == SK_OpenParen && !p.scanner.HasPrecedingLineBreak() {
 			var callExpr = new(CallExpression)
 			callExpr.Expression = expr
 			callExpr.Arguments, callExpr.DotDotDotToken = p.parseArgumentList()
